@@ -586,6 +586,70 @@ func run(c *mon.Ctx) {
 		}
 		c.Class(fmt.Sprintf("after-a-tracker/%02x>%02x", a.Type, b.Type))
 	})
+	// two descriptors whose signals were made 255, 256, ... 65536, ... signals apart in this process (a splicer makes
+	// tens of thousands of signals between an out and its in): the relations are about the two descriptors' field
+	// values, not about how many signals the process made in between
+	c.Floor("far_apart.pairs", 40)
+	c.Floor("far_apart.pairs_65535_or_more_signals_apart", 12)
+	c.Stream("signals-made-far-apart", c.N(48, 2000), func(i int, r *gen.Rand) {
+		a := attrs{Type: r.PickByte([]byte{0x34, 0x36, 0x44, 0x34, 0x36, 0x35, 0x37, 0x31, 0x11, 0x21, 0x51}), Event: uint32(1 + r.Intn(2)), PTS: uint64(1000 + 1000*r.Intn(2)), HasPTS: true, SegNum: byte(1 + r.Intn(2)), SegExp: byte(1 + r.Intn(2)), Noise: r.Uint32() | 1, Carrier: r.Intn(3)}
+		b := attrs{Type: r.PickByte([]byte{0x30, 0x3c, 0x44, 0x30, 0x34, 0x36, 0x10, 0x20, 0x40, 0x50}), Event: uint32(1 + r.Intn(2)), PTS: uint64(1000 + 1000*r.Intn(2)), HasPTS: true, SegNum: 1, SegExp: 1, Noise: r.Uint32() | 1, Carrier: r.Intn(3)}
+		if r.Bool() {
+			// the rule that looks at the two signals' times, with times that differ
+			a.Type, b.Type = r.PickByte([]byte{0x34, 0x36, 0x44}), r.PickByte([]byte{0x30, 0x3c, 0x44})
+			a.PTS, b.PTS = 1000, 2000
+		}
+		gap := r.PickInt([]int{250, 4090})
+		if i%2 == 0 {
+			gap = r.PickInt([]int{65530, 65530, 131066})
+		}
+		db := mk(b)
+		var sec []byte
+		for made := 0; made < gap; made++ {
+			// (signals made in between: created, or decoded from a section)
+			switch {
+			case sec == nil:
+				sec = scte35.CreateSCTE35().UpdateData()
+			case made%1024 == 7:
+				scte35.NewSCTE35(append([]byte{0}, sec...))
+			default:
+				scte35.CreateSCTE35()
+			}
+		}
+		// incoming descriptors are made one after the other from here on, each on a signal of its own: every distance
+		// from a few below to a few above 256 / 4096 / 65536 / 131072 signals is met, whatever a builder makes on the side
+		var das []D
+		for k := 0; k < 16; k++ {
+			da := mk(a)
+			das = append(das, da)
+			sa, sb := seen(da, a), seen(db, b)
+			want := ref.CanClose(sa.Type, sb.Type, sa.Event == sb.Event, sa.PTS == sb.PTS, sa.SegNum == sa.SegExp)
+			back := ref.CanClose(sb.Type, sa.Type, sa.Event == sb.Event, sa.PTS == sb.PTS, sb.SegNum == sb.SegExp)
+			c.Eval(2)
+			if g := da.CanClose(db); g != want {
+				c.Fail("canclose:signals-made-far-apart", fmt.Sprintf("incoming type %#02x CanClose open type %#02x = %v, the documented table says %v; about %d signals were made in the process between the two (a pair with the same field values made back to back is decided by the other streams)", sa.Type, sb.Type, g, want, gap+k), wit{A: sa, B: sb, Detail: fmt.Sprintf("a.CanClose(b), about %d signals apart", gap+k)})
+				return
+			}
+			if g := db.CanClose(da); g != back {
+				c.Fail("canclose:signals-made-far-apart", fmt.Sprintf("type %#02x CanClose type %#02x = %v, the documented table says %v; about %d signals were made in the process between the two", sb.Type, sa.Type, g, back, gap+k), wit{A: sb, B: sa, Detail: fmt.Sprintf("b.CanClose(a), about %d signals apart", gap+k)})
+				return
+			}
+		}
+		// twins of the old descriptor made now, that far apart from it, are equal to it and interchangeable with it
+		for k := 0; k < 16; k++ {
+			tw := mk(b)
+			c.Eval(2)
+			if !tw.Equal(db) || !db.Equal(tw) || das[k].CanClose(tw) != das[k].CanClose(db) || tw.CanClose(das[k]) != db.CanClose(das[k]) || das[k].Equal(tw) != das[k].Equal(db) {
+				c.Fail("equal:signals-made-far-apart", fmt.Sprintf("a descriptor and a twin with the same field values made about %d signals later are not equal, or not interchangeable in Equal and CanClose", gap+16+k), wit{A: seen(db, b), B: seen(tw, b), Detail: "twin made later"})
+				return
+			}
+		}
+		c.Count("far_apart.pairs")
+		if gap >= 65530 {
+			c.Count("far_apart.pairs_65535_or_more_signals_apart")
+		}
+		c.Class(fmt.Sprintf("far-apart/%02x>%02x/gap=%d", a.Type, b.Type, gap))
+	})
 	// descriptors obtained by decoding one and the same section twice; one twin (or its signal) is then edited through
 	// setters, nothing is re-encoded: the relations are asked about the field values the getters report now
 	c.Floor("decoded_twins.edited", 1000)
